@@ -120,6 +120,26 @@ def refers_exh(F, kind):
                 upd_fields.setdefault(leaf["variant"], set()).update(bound)
                 # which bound fields are actually written in the arm body?
         # writes in the body: Assign whose lhs derefs a binding
+    # local "remapper" helpers: fn(p: &mut u32, map) that writes `*p = *map.get(p)` (key and target are the same parameter)
+    remappers = set()
+    for g_ in F.fns:
+        if g_.get("body") is None:
+            continue
+        pms = g_.get("params", [])
+        mut_u32 = [pm for pm in pms if (pm.get("ty") or "").replace(" ", "") in ("&mutu32",)]
+        has_map = any("HashMap<u32, u32" in (pm.get("ty") or "") for pm in pms)
+        if len(mut_u32) == 1 and has_map:
+            ph = mut_u32[0]["pat"].get("hid")
+            okk = False
+            for x in walk(g_["body"]):
+                if x.get("k") == "Assign":
+                    l = x["lhs"]
+                    while isinstance(l, dict) and l.get("k") in ("Unary",):
+                        l = l.get("a")
+                    if isinstance(l, dict) and l.get("k") == "Path" and l.get("res", {}).get("hid") == ph:
+                        okk = any(y.get("k") == "MethodCall" and y["method"] == "get" and any(z.get("k") == "Path" and z.get("res", {}).get("hid") == ph for z in walk(y["args"][0])) for y in walk(g_["body"]) if y.get("args"))
+            if okk:
+                remappers.add(g_["path"])
     # written fields per arm: collect binding names assigned to
     written = {}
     for arm in m2["arms"]:
@@ -127,6 +147,12 @@ def refers_exh(F, kind):
             continue
         assigned = set()
         for n in walk(arm["body"]):
+            if n.get("k") == "Call" and (n.get("callee") or "") in remappers and n["args"]:
+                a0 = n["args"][0]
+                while isinstance(a0, dict) and a0.get("k") in ("AddrOf", "Unary", "Field"):
+                    a0 = a0.get("a") or a0.get("base")
+                if isinstance(a0, dict) and a0.get("k") == "Path" and a0.get("res", {}).get("r") == "local":
+                    assigned.add(a0["res"]["name"])
             if n.get("k") == "Assign":
                 lhs = n["lhs"]
                 # *binding = ..  or binding.memory = ..
@@ -143,6 +169,22 @@ def refers_exh(F, kind):
 
     # key/target agreement: `match mapping.get(K) { Some(n) => *T = *n }` must look up the very field it rewrites
     n_pairs = 0
+    # let-else form: `let Some(n) = mapping.get(K) else { panic }; *T = *n;`
+    for st in walk(m2):
+        if st.get("k") == "Let" and "else" in st and "init" in st:
+            sc = peel(st["init"])
+            if sc.get("k") == "MethodCall" and sc.get("method") == "get" and sc.get("args"):
+                kplace = place_path(sc["args"][0])
+                binds = {b["hid"] for b in walk(st["pat"]) if b.get("k") == "Binding"}
+                for a in walk(m2):
+                    if a.get("k") == "Assign" and {x["res"]["hid"] for x in walk(a["rhs"]) if x.get("k") == "Path" and x.get("res", {}).get("r") == "local"} & binds:
+                        tplace = place_path(a["lhs"])
+                        n_pairs += 1
+                        ok = kplace is not None and kplace == tplace
+                        r.ob(ok, {"lookup_key": kplace, "rewritten": tplace})
+                        if not ok:
+                            r.violate("%s | key/target %s←map[%s]" % (upd["path"], tplace, kplace), F.loc(upd, a),
+                                      "%s rewrites `%s` with the mapping of `%s`: the %s index is replaced by another operand's new index" % (names[1], tplace, kplace, kind))
     for g in walk(m2):
         if g.get("k") != "Match":
             continue
